@@ -40,6 +40,7 @@ type FuncContract struct {
 	File      string
 	Line      int
 	Uses      []Clause // lemma instantiations "use lemma(args)" at function level
+	RefinedBy []string // interface contract: concrete receiver types whose verified contracts may be used under the dynamic type
 	Before    map[string][]Clause // "before <Method>: E": obligation at every call of that method/function in the body
 	Opaque    bool
 }
@@ -101,7 +102,7 @@ type GlobalFact struct {
 }
 
 var clauseKeywords = map[string]bool{
-	"func": true, "requires": true, "ensures": true, "modifies": true, "preserves": true, "monitor": true, "protects": true, "track": true, "before": true, "panics": true, "maypanic": true,
+	"func": true, "requires": true, "ensures": true, "modifies": true, "preserves": true, "refinedby": true, "monitor": true, "protects": true, "track": true, "before": true, "panics": true, "maypanic": true,
 	"loop": true, "invariant": true, "decreases": true, "spec": true, "lemma": true, "induct": true,
 	"smt": true, "smtlate": true, "closed": true, "fieldinv": true, "inline": true, "sort": true, "global": true, "package": true, "ghost": true, "type": true, "trusted": true, "props": true, "use": true, "hdruse": true, "axiom": true, "pattern": true, "opaque": true,
 }
@@ -327,6 +328,11 @@ func (cs *Contracts) loadContractFile(path string, pkg string, goFile bool) erro
 				}
 				curF.Preserves = append(curF.Preserves, c)
 			}
+		case "refinedby":
+			if curF == nil {
+				return fmt.Errorf("%s:%d: refinedby outside func", path, l.no)
+			}
+			curF.RefinedBy = append(curF.RefinedBy, strings.FieldsFunc(rest, func(r rune) bool { return r == ',' || r == ' ' })...)
 		case "before":
 			if curF == nil {
 				return fmt.Errorf("%s:%d: before outside func", path, l.no)
